@@ -53,26 +53,27 @@ type SeedSpec struct {
 }
 
 type Case struct {
-	Pieces  []gen.Piece `json:"pieces"`
-	Sizes   gen.Sizes   `json:"sizes"`
-	Tiling  []int       `json:"tiling,omitempty"`
-	Seeds   []SeedSpec  `json:"seeds,omitempty"`
-	Prior   string      `json:"prior"` // absent empty garbage longer shorter older exact
-	PriorA  int         `json:"prior_a"`
-	PriorEd []Edit      `json:"prior_edits,omitempty"`
-	Action  int         `json:"action"` // 0 bail-out 1 skip 2 regenerate
-	N       int         `json:"n"`
-	Clone   bool        `json:"clone"`
-	Missing []int       `json:"missing,omitempty"`  // chunk numbers removed from the store
-	FailGet []int       `json:"fail_get,omitempty"` // GetChunk call numbers that fail
-	Incons  string      `json:"incons,omitempty"`   // "" size-shift id-other
-	InconsA int         `json:"incons_a,omitempty"`
-	InconsD int         `json:"incons_d,omitempty"`
-	Perturb []int       `json:"perturb,omitempty"`
-	SeedDir int         `json:"seed_dir,omitempty"` // CLI: >0 = index, previous blob and seeds live in one directory given as --seed-dir, index and directory spelled differently (1 rel dir/abs index, 2 abs dir/rel index, 3 dotted, 4 same)
-	MidRun  *MidRun     `json:"midrun,omitempty"`   // a seed file is modified after validation, while assembling
-	CLI     bool        `json:"cli,omitempty"`      // also drive `desync extract` (needs $VERIF_DESYNC_BIN)
-	Inplace bool        `json:"inplace,omitempty"`  // CLI: -k
+	Pieces   []gen.Piece `json:"pieces"`
+	Sizes    gen.Sizes   `json:"sizes"`
+	Tiling   []int       `json:"tiling,omitempty"`
+	Seeds    []SeedSpec  `json:"seeds,omitempty"`
+	Prior    string      `json:"prior"` // absent empty garbage longer shorter older exact
+	PriorA   int         `json:"prior_a"`
+	PriorEd  []Edit      `json:"prior_edits,omitempty"`
+	Action   int         `json:"action"` // 0 bail-out 1 skip 2 regenerate
+	N        int         `json:"n"`
+	Clone    bool        `json:"clone"`
+	Missing  []int       `json:"missing,omitempty"`  // chunk numbers removed from the store
+	FailGet  []int       `json:"fail_get,omitempty"` // GetChunk call numbers that fail
+	Incons   string      `json:"incons,omitempty"`   // "" size-shift id-other
+	InconsA  int         `json:"incons_a,omitempty"`
+	InconsD  int         `json:"incons_d,omitempty"`
+	Perturb  []int       `json:"perturb,omitempty"`
+	ZeroTail bool        `json:"zero_tail,omitempty"` // directed: identical seed truncated inside the blob's zero tail
+	SeedDir  int         `json:"seed_dir,omitempty"`  // CLI: >0 = index, previous blob and seeds live in one directory given as --seed-dir, index and directory spelled differently (1 rel dir/abs index, 2 abs dir/rel index, 3 dotted, 4 same)
+	MidRun   *MidRun     `json:"midrun,omitempty"`    // a seed file is modified after validation, while assembling
+	CLI      bool        `json:"cli,omitempty"`       // also drive `desync extract` (needs $VERIF_DESYNC_BIN)
+	Inplace  bool        `json:"inplace,omitempty"`   // CLI: -k
 }
 
 func applyEdits(b []byte, eds []Edit) []byte {
@@ -241,6 +242,18 @@ func genCase(t *rapid.T) Case {
 	}
 	if c.N > 1 {
 		c.Perturb = sched.Vector(t, "pv")
+	}
+	if c.Tiling == nil && rapid.IntRange(0, 11).Draw(t, "zerotail") == 0 {
+		// a seed that lost part of a zero tail: what is missing equals what a short read leaves in
+		// a fresh buffer, so only a length-aware validation notices; the target holds other bytes there
+		mx := int(c.Sizes.Max)
+		l := rapid.IntRange(1, mx-1).Draw(t, "ztlen")
+		c.Pieces = []gen.Piece{{Kind: "rand", Len: gen.Around(t, "ztpre", 3*mx, mx, int(c.Sizes.Min)), Seed: rapid.Uint64().Draw(t, "zts")}, {Kind: "zero", Len: l}}
+		c.Seeds = []SeedSpec{{Kind: "identical", Stale: "trunc", StaleArg: rapid.IntRange(0, l-1).Draw(t, "ztcut")}}
+		c.Prior = rapid.SampledFrom([]string{"garbage", "longer", "garbage"}).Draw(t, "ztprior")
+		c.Action = rapid.SampledFrom([]int{1, 1, 2, 0}).Draw(t, "ztaction")
+		c.Missing, c.FailGet, c.Incons = nil, nil, ""
+		c.ZeroTail = true
 	}
 	if len(c.Seeds) > 0 && rapid.IntRange(0, 5).Draw(t, "midrun") == 0 {
 		c.MidRun = &MidRun{Seed: rapid.IntRange(0, 3).Draw(t, "mrseed"), Chunk: rapid.IntRange(0, 1<<16).Draw(t, "mrchunk"),
@@ -608,6 +621,9 @@ func run(c Case) (o hx.Outcome) {
 	}
 	if staleSeed {
 		o.Class("stale-seed")
+		if c.ZeroTail {
+			o.Class("stale-seed:truncated-inside-zero-tail")
+		}
 	}
 	if unopenableSeed {
 		o.Class("unopenable-seed")
@@ -696,7 +712,7 @@ var spec = &hx.Spec[Case]{
 		"non-trivial = at least one chunk came from a seed, was found in place, or bytes were cloned; distinct by (content hash, sizes, seed kinds, prior, action, n, clone, inconsistency)",
 	Assumptions: []string{"block cloning is emulated in-process (rules of fs/remap_range.c), real reflink filesystems are not available", "worker interleavings perturbed at hook sites, not enumerated", "chunk IDs recomputed with crypto/sha512"},
 	Required: []string{"action:bailout", "action:skip", "action:regenerate", "prior:absent", "prior:empty", "prior:garbage", "prior:longer", "prior:shorter", "prior:older", "prior:exact",
-		"empty-blob", "empty-seed", "alias-seed", "stale-seed", "unopenable-seed", "seed-changed-mid-run", "seed-truncated-mid-run", "clone-on:max<block", "clone-on:min>block", "clone-on:inplace-seed", "clone-on:isolated-small-null-chunk",
+		"empty-blob", "empty-seed", "alias-seed", "stale-seed", "unopenable-seed", "seed-changed-mid-run", "seed-truncated-mid-run", "stale-seed:truncated-inside-zero-tail", "clone-on:max<block", "clone-on:min>block", "clone-on:inplace-seed", "clone-on:isolated-small-null-chunk",
 		"chunks-from-seed", "chunks-in-place", "bytes-cloned", "liveness-demanded", "inconsistent-index:size-shift"},
 	// (with $VERIF_DESYNC_BIN: TestMain adds the CLI classes)
 	Gen:      genCase,
